@@ -356,7 +356,7 @@ def jax_samples_and_geo(lg, case, seed, n_samples=2):
         out["geo"] = np.array([flat_vec(jax.tree_util.tree_map(lambda a: a[i], upd._samples), case) for i in range(len(upd))])
     # Wiener filter of the model linearised at the (non-zero) expansion point p: the samples must be
     # exact posterior samples of the linearised model, in particular centred on its posterior mean
-    if not pe:
+    if True:
         wf, _ = _quiet(lambda: jft.wiener_filter_posterior(
             lh, pos, key=jax.random.PRNGKey(seed + 29), n_samples=n_samples, model_is_linear=False, jit=False,
             draw_linear_kwargs=dict(cg_name=None, cg_kwargs=dict(L.CG_TIGHT))))
